@@ -474,6 +474,28 @@ def chunkRangesP (size cs off ov : Param) (align : Bool) : Except Err (List (Nat
     else .ok (chunkRangesNat s.toNat c.toNat o.toNat v.toNat align)
   | _, _, _, _ => .error .valueError
 
+/-! ## default values of the optional parameters -/
+
+/-- (function, parameter, default) the model's entry points assume when a caller leaves the argument out:
+    `count=None` is "no limit", `fill`/`end` unset is `fill = none`, `sep=None` is `Sep.none` (grouping),
+    `maxsplit=None` is "no limit", `strip_value=None` strips `None` items, `key=None` is the identity key,
+    `key=bool` for bucketize / partition, no value transform, no key filter, `groups=False`,
+    `input_offset=0`, `overlap_size=0`, `align=False` -/
+def modelDefaults : List (String × String × String) := [
+  ("chunked", "count", "None"),
+  ("chunk_ranges", "input_offset", "0"), ("chunk_ranges", "overlap_size", "0"), ("chunk_ranges", "align", "False"),
+  ("windowed", "fill", "_UNSET"), ("windowed_iter", "fill", "_UNSET"),
+  ("pairwise", "end", "_UNSET"), ("pairwise_iter", "end", "_UNSET"),
+  ("split", "sep", "None"), ("split", "maxsplit", "None"),
+  ("split_iter", "sep", "None"), ("split_iter", "maxsplit", "None"),
+  ("lstrip", "strip_value", "None"), ("lstrip_iter", "strip_value", "None"),
+  ("rstrip", "strip_value", "None"), ("rstrip_iter", "strip_value", "None"),
+  ("strip", "strip_value", "None"), ("strip_iter", "strip_value", "None"),
+  ("unique", "key", "None"), ("unique_iter", "key", "None"),
+  ("redundant", "key", "None"), ("redundant", "groups", "False"),
+  ("bucketize", "key", "bool"), ("bucketize", "value_transform", "None"), ("bucketize", "key_filter", "None"),
+  ("partition", "key", "bool")]
+
 /-! ## specifications: `str.split` / `str.strip` on lists of items -/
 
 /-- `str.split(sep, maxsplit)` with an explicit separator, item-wise: cut at the first
